@@ -28,7 +28,8 @@ type Case struct {
 }
 
 func sameF(a, b float64) bool {
-	return math.Float64bits(a) == math.Float64bits(b) || (math.IsNaN(a) && math.IsNaN(b))
+	// numerically identical (0 and -0 are the same number; NaN equals NaN)
+	return a == b || (math.IsNaN(a) && math.IsNaN(b))
 }
 
 func bitsEq(a, b []float64) bool {
@@ -224,11 +225,14 @@ var checkQuantile = ev.Register("quantile", func(c *Case) ev.Outcome {
 				var accept []float64
 				for i := 0; i < n; {
 					j := i
+					groupW := 0.0
 					for j < n && asc[j] == asc[i] {
 						cum += ascW[j]
+						groupW += ascW[j]
 						j++
 					}
-					if cum > target-slack && cum > 0 {
+					// only a value that carries weight can be the one "at which" the cumulative weight exceeds the target
+					if cum > target-slack && groupW > 0 {
 						accept = append(accept, asc[i])
 						if cum > target+slack {
 							break
@@ -284,7 +288,7 @@ const rule = "Sample.Quantile/IQR on rapid-generated samples (n 0..200 with repe
 
 func TestQuantile(t *testing.T) {
 	ev.Rule(rule)
-	ev.Rapid(t, "c10-quantile", 4000, 320000, func(rt *rapid.T) {
+	ev.Rapid(t, "c10-quantile", 30000, 320000, func(rt *rapid.T) {
 		n := rapid.IntRange(0, 200).Draw(rt, "n")
 		if rapid.IntRange(0, 2).Draw(rt, "small") == 0 {
 			n = rapid.IntRange(0, 8).Draw(rt, "nsmall")
@@ -310,6 +314,26 @@ func TestQuantile(t *testing.T) {
 					any = true
 				}
 			}
+			if rapid.IntRange(0, 3).Draw(rt, "zeroAtMax") == 0 && n >= 2 {
+				// the largest value carries no weight (it must then never be returned)
+				mi := 0
+				for i := range c.Xs {
+					if c.Xs[i] > c.Xs[mi] {
+						mi = i
+					}
+				}
+				for i := range c.Xs {
+					if c.Xs[i] == c.Xs[mi] {
+						c.W[i] = 0
+					}
+				}
+				any = false
+				for _, w := range c.W {
+					if w > 0 {
+						any = true
+					}
+				}
+			}
 			if !any {
 				c.W[rapid.IntRange(0, n-1).Draw(rt, "wfix")] = 1
 			}
@@ -319,6 +343,10 @@ func TestQuantile(t *testing.T) {
 		for i := 0; i < nq; i++ {
 			var q float64
 			qk := rapid.IntRange(0, 5).Draw(rt, "qkind")
+			if c.W != nil && rapid.IntRange(0, 5).Draw(rt, "qNearOne") == 0 {
+				c.Qs = append(c.Qs, ev.F(math.Nextafter(1, 0))) // the cumulative weights then reach the target only up to rounding
+				continue
+			}
 			if c.W != nil && qk <= 2 && rapid.Bool().Draw(rt, "qOnCum") {
 				// a level that is exactly a cumulative weight fraction j/W
 				tw := 0.0
